@@ -7,7 +7,7 @@ Driver family `supervisor` (C18).
 Part (i) — deterministic differential run (`harness/supervisor/sim_verif_test.go`).  One case = one
 supervisor; every line carries the operation, what the real code answered, and a full dump afterwards:
 
-* `reset <id> init=<ns> max=<ns> pert=<bool> <dump>`
+* `reset <id> init=<ns> max=<ns> pert=<bool> pp=0|1 <dump>`   — `pp=1`: the supervisor value has `propagatePanic` set
 * `sched <id> dn=<dn> fab=0|1 res=ok|panic <dump>`            — `processSchedule`
 * `died <id> dn=<dn> e=nil|ctx|other fab=0|1 res=ok|panic <dump>` — `processDied`
 * `gc <id> res=ok|panic resets=<dn,..|-> <dump>`              — `processGC`
@@ -80,8 +80,11 @@ def dupLive (s : Sys) : Option DN :=
     | i :: rest => if rest.any (fun j => j.dn = i.dn) then some i.dn else go rest
   go s.live
 
-/-- Replay one operation of part (i) on the model. `Except String` = the line is not replayable. -/
-def simOp (P : Params) (fixed : Bool) (s : Sys) (op : String) (fs : List String) : Except String Out := do
+/-- Replay one operation of part (i) on the model. `Except String` = the line is not replayable.
+`pp` = the supervisor's `propagatePanic` field: `reportOf pp` says what the goroutine started by `processSchedule`
+does once the runnable is over (a return is reported as it is; a panic is reported as `other` with the option off and
+ends the process with it on - the harness never makes a runnable panic in that mode, so that is a `diff`). -/
+def simOp (P : Params) (fixed : Bool) (pp : Bool) (s : Sys) (op : String) (fs : List String) : Except String Out := do
   let getDN : Except String DN := match kv fs "dn" >>= parseDN with | some d => pure d | none => throw "no dn"
   let getInst : Except String Inst :=
     match kvNat fs "iid" with
@@ -91,9 +94,12 @@ def simOp (P : Params) (fixed : Bool) (s : Sys) (op : String) (fs : List String)
       | none => throw s!"model has no live instance {iid}"
   -- a panic inside Signal / RunGroup unwinds the runnable; when it came from `nodeByDN` inside `fromContext`
   -- the supervisor mutex is never released
-  let unwound (i : Inst) (p : Panic) : Out :=
-    { sys := { s with live := s.live.erase i, pend := s.pend ++ [.died i.dn .other] }, new := [.died i.dn .other], res := "panic",
-      extra := [("lk", if p = .nodeByDN then "1" else "0")] }
+  let ended (i : Inst) (x : Exit) (res : String) (extra : List (String × String)) : Except String Out :=
+    match reportOf pp x with
+    | .died e => pure { sys := { s with live := s.live.erase i, pend := s.pend ++ [.died i.dn e] }, new := [.died i.dn e], res := res, extra := extra }
+    | .crash => throw s!"model: the runnable of {showDN i.dn} panics and propagatePanic is set - nothing recovers it, the process ends"
+  let unwound (i : Inst) (p : Panic) : Except String Out :=
+    ended i .panicked "panic" [("lk", if p = .nodeByDN then "1" else "0")]
   match op with
   | "sched" =>
     let dn ← getDN
@@ -123,7 +129,7 @@ def simOp (P : Params) (fixed : Bool) (s : Sys) (op : String) (fs : List String)
     let sg ← match kvNat fs "s" with | some 0 => pure Signal.healthy | some 1 => pure Signal.done | _ => throw "bad s"
     match signal P s.tree i.dn sg with
     | .ok t => pure { sys := { s with tree := t } }
-    | .error p => pure (unwound i p)
+    | .error p => unwound i p
   | "run" =>
     let i ← getInst
     let names := parseNames ((kv fs "names").getD "-")
@@ -132,11 +138,12 @@ def simOp (P : Params) (fixed : Bool) (s : Sys) (op : String) (fs : List String)
       let new := names.map fun nm => Req.sched (i.dn ++ [nm])
       pure { sys := { s with tree := t, pend := s.pend ++ new, nextInc := s.nextInc + 1 }, new := new }
     | .ok none => pure { sys := s, res := "err" }
-    | .error p => pure (unwound i p)
+    | .error p => unwound i p
   | "ret" =>
     let i ← getInst
     let e ← match kv fs "e" >>= parseKind with | some e => pure e | none => throw "no e"
-    pure { sys := { s with live := s.live.erase i, pend := s.pend ++ [.died i.dn e] }, new := [.died i.dn e] }
+    -- `how=panic`: the runnable's own code panicked; anything else is a return of the value `e`
+    ended i (if (kv fs "how") == some "panic" then Exit.panicked else Exit.returned e) "ok" []
   | "set" =>
     let dn ← getDN
     let st ← match kvNat fs "st" >>= numState with | some st => pure st | none => throw "bad st"
@@ -155,7 +162,8 @@ def fixedModel : Bool := true
 
 /-! ## Part (ii): traces of the real supervisor
 
-* `tr <id> name=<scenario> init=<ns> max=<ns> lat=<ns>` (`lat` = the longest scripted exit latency of the scenario)
+* `tr <id> name=<scenario> init=<ns> max=<ns> lat=<ns> opts=<-|propagate-panic,..>` (`lat` = the longest scripted exit latency of the
+  scenario; `opts` = the options `supervisor.New` was called with)
 * `ev <id> k=<n> t=<µs> e=<kind> iid=<i> dn=<dn> ...` with kinds
   `enter`, `run names= res=ok|err|panic`, `sig s=0|1 res=ok|panic`, `ctxdone`, `exit how=nil|ctx|other panic=0|1 live=0|1`,
   `settled ok= why=`, `window ..` (cancel-inside-the-back-off-window scenarios), `cancelreq`, `stopped ok=`, `quiesced`, `fin`
@@ -196,6 +204,8 @@ structure St where
   id : String := ""
   name : String := ""
   P : Params := {}
+  opts : String := "-"                -- the SupervisorOpts the supervisor was built with
+  pp : Bool := false                  -- ... `WithPropagatePanic` among them
   lat : Nat := 0                      -- longest scripted exit latency (ns)
   evs : Array Ev := #[]
   cancelReq : Bool := false
@@ -237,8 +247,11 @@ def hiddenSucc (P : Params) (cancelReq : Bool) (s : Sys) : List Sys :=
   let c := if cancelReq then (step P fixedModel s .kill).toList else []
   a ++ b ++ c
 
-/-- the observable event applied to one model state (`none` = this state does not allow it) -/
-def applyEv (P : Params) (s : Sys) (kind : String) (iid : Nat) (dn : DN) (fs : List String) : Option Sys :=
+/-- the observable event applied to one model state (`none` = this state does not allow it).  `pp`: the supervisor
+was built with `WithPropagatePanic` - a panic unwinding a runnable ends the process (`reportOf pp .panicked = .crash`),
+so no state allows a logged panic there; a return is reported the same way under either setting. -/
+def applyEv (P : Params) (pp : Bool) (s : Sys) (kind : String) (iid : Nat) (dn : DN) (fs : List String) : Option Sys :=
+  let captured : Bool := reportOf pp .panicked != .crash
   let inst := s.live.find? (fun i => i.iid = iid)
   match kind with
   | "enter" =>
@@ -257,7 +270,7 @@ def applyEv (P : Params) (s : Sys) (kind : String) (iid : Nat) (dn : DN) (fs : L
       match runGroup P s.tree i.dn names s.nextInc with
       | .ok (some t) => if res = "ok" then some { s with tree := t, pend := s.pend ++ names.map (fun nm => Req.sched (i.dn ++ [nm])), nextInc := s.nextInc + 1 } else none
       | .ok none => if res = "err" then some s else none
-      | .error _ => if res = "panic" then some s else none
+      | .error _ => if res = "panic" && captured then some s else none
   | "sig" =>
     match inst with
     | none => none
@@ -266,7 +279,7 @@ def applyEv (P : Params) (s : Sys) (kind : String) (iid : Nat) (dn : DN) (fs : L
       let res := (kv fs "res").getD ""
       match signal P s.tree i.dn sg with
       | .ok t => if res = "ok" then some { s with tree := t } else none
-      | .error _ => if res = "panic" then some s else none
+      | .error _ => if res = "panic" && captured then some s else none
   | "ctxdone" =>
     match inst with
     | none => none
@@ -277,7 +290,10 @@ def applyEv (P : Params) (s : Sys) (kind : String) (iid : Nat) (dn : DN) (fs : L
     | some i =>
       match (kv fs "how") >>= parseKind with
       | none => none
-      | some e => some { s with live := s.live.erase i, pend := s.pend ++ [.died i.dn e] }
+      | some e =>
+        match reportOf pp (if kvNat fs "panic" == some 1 then Exit.panicked else Exit.returned e) with
+        | .died e' => some { s with live := s.live.erase i, pend := s.pend ++ [.died i.dn e'] }
+        | .crash => none
   | _ => some s
 
 structure Search where
@@ -288,7 +304,7 @@ structure Search where
 /-- Depth-first search for ONE interleaving of hidden processor steps (`died`, `gc`, and `kill` once the harness
 has cancelled the supervisor context) under which the model produces the logged events in order.  Visited
 (event index, state) pairs are memoised, so a rejection means every reachable combination was tried. -/
-partial def dfs (P : Params) (evs : Array Ev) (crAt : Nat) (k : Nat) (s : Sys) : StateM Search Bool := do
+partial def dfs (P : Params) (pp : Bool) (evs : Array Ev) (crAt : Nat) (k : Nat) (s : Sys) : StateM Search Bool := do
   let st ← get
   if st.capped then return false
   if st.seen.size > searchBudget then
@@ -298,11 +314,11 @@ partial def dfs (P : Params) (evs : Array Ev) (crAt : Nat) (k : Nat) (s : Sys) :
   set { st with seen := st.seen.insert (k, s), deepest := max st.deepest k }
   if h : k < evs.size then
     let e := evs[k]
-    match applyEv P s e.kind e.iid e.dn e.fs with
-    | some s1 => if (← dfs P evs crAt (k + 1) s1) then return true
+    match applyEv P pp s e.kind e.iid e.dn e.fs with
+    | some s1 => if (← dfs P pp evs crAt (k + 1) s1) then return true
     | none => pure ()
     for hs in hiddenSucc P (decide (crAt < k)) s do
-      if (← dfs P evs crAt k hs) then return true
+      if (← dfs P pp evs crAt k hs) then return true
     return false
   else
     return true
@@ -432,11 +448,15 @@ def specEv (st : St) (kind : String) (iid : Nat) (dn : DN) (t : Nat) (fs : List 
 def traceLine (st : St) (op : String) (id : String) (fs : List String) : St × List String :=
   if op = "tr" then
     let P : Params := { initial := (kvNat fs "init").getD 0, max := (kvNat fs "max").getD 0 }
-    ({ id := id, name := (kv fs "name").getD "?", P := P, lat := (kvNat fs "lat").getD 0 }, [])
+    let opts := (kv fs "opts").getD "-"
+    -- the scenario name as the verdict texts quote it says which options the supervisor was built with
+    let name := (kv fs "name").getD "?" ++ (if opts = "-" then "" else s!", supervisor built with options {opts}")
+    ({ id := id, name := name, P := P, lat := (kvNat fs "lat").getD 0, opts := opts,
+       pp := (opts.splitOn ",").contains "propagate-panic" }, [])
   else if op = "end" then
     -- acceptance: is there an interleaving of hidden processor steps under which the model yields this log?
     let crAt := (st.evs.findIdx? (fun e => e.kind = "cancelreq")).getD st.evs.size
-    let (ok, sr) := (dfs st.P st.evs crAt 0 (init st.P)).run {}
+    let (ok, sr) := (dfs st.P st.pp st.evs crAt 0 (init st.P)).run {}
     let st := { st with capped := sr.capped, searched := sr.seen.size }
     let st := if ok || sr.capped then st else
       match st.evs[sr.deepest]? with
@@ -458,6 +478,7 @@ structure CaseSt where
   id : String := ""
   P : Params := {}
   sys : Sys := init {}
+  pp : Bool := false           -- the supervisor value has `propagatePanic` set
   pure : Bool := true          -- only genuine actions so far (no perturbation, no fabricated request)
   verdict : Option String := none
   parted : Bool := false       -- model and implementation disagreed earlier in this case
@@ -477,6 +498,8 @@ structure St where
   trMaxWorlds : Nat := 0
   trCompletedRoot : Nat := 0
   trBelowCompleted : Nat := 0
+  trWithOptions : Nat := 0
+  simPP : Nat := 0
 
 def bump (d : List (String × Nat)) (k : String) : List (String × Nat) :=
   if d.any (·.1 = k) then d.map fun (a, n) => if a = k then (a, n + 1) else (a, n) else d ++ [(k, 1)]
@@ -490,11 +513,11 @@ def simLine (st : St) (op : String) (id : String) (fs : List String) (line : Str
   if op = "reset" then
     let P : Params := { initial := (kvNat fs "init").getD 0, max := (kvNat fs "max").getD 0 }
     let sys := init P
-    let c : CaseSt := { id := id, P := P, sys := sys, pure := (kv fs "pert") == some "false" }
+    let c : CaseSt := { id := id, P := P, sys := sys, pure := (kv fs "pert") == some "false", pp := kvNat fs "pp" == some 1 }
     -- the harness puts the first schedule request straight into its pending list
     let exp := showDump sys []
     let c := if line.endsWith exp then c else { setVerdict c s!"diff {id} initial dump: model [{exp}] line [{line}]" with parted := true }
-    ({ st with cur := c, cases := st.cases + 1 }, [])
+    ({ st with cur := c, cases := st.cases + 1, simPP := st.simPP + (if c.pp then 1 else 0) }, [])
   else if op = "end" then
     let v := match st.cur.verdict with | some v => v | none => s!"ok {id}"
     (st, [v])
@@ -520,7 +543,7 @@ def simLine (st : St) (op : String) (id : String) (fs : List String) (line : Str
         setVerdict c s!"spec {id} supervisor-lock-leaked after op {c.ops} ({op}) the supervisor mutex stays locked (nodeByDN panicked inside fromContext): nothing is ever restarted again"
       else c
     if c.parted then ({ st with cur := c }, []) else
-    match simOp c.P fixedModel c.sys op fs with
+    match simOp c.P fixedModel c.pp c.sys op fs with
     | .error e => ({ st with cur := { setVerdict c s!"diff {id} op {c.ops} ({op}): {e}" with parted := true } }, [])
     | .ok o =>
       -- which branch of the anchored function this operation took (for the evidence file)
@@ -552,7 +575,8 @@ def step (st : St) (line : String) : St × List String :=
       let st := if op = "end" then { st with traces := st.traces + 1, trEvents := st.trEvents + t.events,
                                              trCapped := st.trCapped + (if t.capped then 1 else 0), trMaxWorlds := max st.trMaxWorlds t.searched,
                                              trCompletedRoot := st.trCompletedRoot + (if t.completedRootAtStop then 1 else 0),
-                                             trBelowCompleted := st.trBelowCompleted + (if t.liveBelowCompleted then 1 else 0) } else st
+                                             trBelowCompleted := st.trBelowCompleted + (if t.liveBelowCompleted then 1 else 0),
+                                             trWithOptions := st.trWithOptions + (if t.opts == "-" then 0 else 1) } else st
       (st, outs)
     else simLine st op id fs line
   | _ => (st, [])
@@ -561,7 +585,8 @@ def fin (st : St) : List String :=
   (st.dist.map fun (k, n) => s!"stat branch_{k} {n}") ++
   [s!"stat sim_cases {st.cases}", s!"stat sim_ops {st.ops}", s!"stat sim_gc_resets {st.gcResets}", s!"stat sim_panics {st.panics}",
    s!"stat traces {st.traces}", s!"stat trace_events {st.trEvents}", s!"stat trace_search_capped {st.trCapped}", s!"stat trace_max_search_nodes {st.trMaxWorlds}",
-   s!"stat trace_stop_with_completed_root {st.trCompletedRoot}", s!"stat trace_stop_live_below_completed {st.trBelowCompleted}"]
+   s!"stat trace_stop_with_completed_root {st.trCompletedRoot}", s!"stat trace_stop_live_below_completed {st.trBelowCompleted}",
+   s!"stat trace_with_supervisor_options {st.trWithOptions}", s!"stat sim_cases_propagate_panic {st.simPP}"]
 
 def run (h : IO.FS.Stream) : IO Unit := loop h ({} : St) step fin
 
